@@ -9,4 +9,9 @@ REGISTRY = {
         'assumptions': ['winnow 0.6.7 combinator semantics as transcribed in Model/Winnow.lean (validated by the correspondence stream)'],
         'trusted': ['Spec/Grammar.lean is the reading of "the find grammar" (stratified, left-recursive rules)'],
     },
+    'C19': {
+        'profiles': ['debug', 'release'],
+        'level_text': 'Machine-checked (Lean 4) for ALL expression trees that the public types can build (no depth bound, including Precedence/List/Global/Positional nodes): "contains an action" is true exactly when an action node occurs at some depth (C19_action, against the inductive Spec.ContainsAction), "needs framed output" exactly when some action writes to a file, is NUL-terminated or is a formatted print whose last element exists and is not the newline escape (C19_frames), the unit tables are 1/2/512/2^10/2^20/2^30/2^40 and 1/60/3600/86400 (C19_size_units, C19_time_units), and the byte size is count*unit whenever it fits 64 bits, in both profiles (C19_bytes). Tied to ast.rs on every run by random trees from the public constructors and exhaustive unit queries, in debug and release builds.',
+        'level_note': 'Trusted: Lean kernel (+leanchecker), axioms propext/Quot.sound; Spec/Actions.lean as the reading of the property\'s wording; the model of ast.rs is validated by the correspondence stream (random trees, depth<=12); overflow of byte_size beyond 64 bits is modelled per profile (panic/wrap) and compared, but the property does not constrain it.',
+    },
 }
